@@ -31,7 +31,16 @@ func Helpers(fn *ssa.Function, maxDepth int) map[*ssa.Function]bool {
 		}
 		Calls(f, func(c ssa.CallInstruction) {
 			g := CalleeFn(c)
-			if g == nil || out[g] || len(g.Blocks) == 0 || g.Pkg == nil || f.Pkg == nil {
+			if g != nil && len(g.Blocks) == 0 || g != nil && g.Pkg == nil {
+				// a method of a generic type called from a generic body: go/ssa names an instantiation;
+				// the body that is analysed is the generic original
+				if obj := Callee(c); obj != nil {
+					if og := f.Prog.FuncValue(obj.Origin()); og != nil {
+						g = og
+					}
+				}
+			}
+			if g == nil || out[g] || len(g.Blocks) == 0 {
 				return
 			}
 			if fp, gp := FuncPkg(fn), FuncPkg(g); fp == nil || gp == nil || fp.Path() != gp.Path() {
@@ -147,7 +156,15 @@ func (st *deepState) walkFrom(b *ssa.BasicBlock, from int, pred *ssa.BasicBlock,
 				break
 			}
 			if c, ok := in.(*ssa.Call); ok {
-				if g := c.Call.StaticCallee(); g != nil && st.r.Scope[g] && g != in.Parent() {
+				g := c.Call.StaticCallee()
+				if g != nil && !st.r.Scope[g] {
+					if obj := Callee(c); obj != nil {
+						if og := in.Parent().Prog.FuncValue(obj.Origin()); og != nil {
+							g = og
+						}
+					}
+				}
+				if g != nil && st.r.Scope[g] && g != in.Parent() {
 					if !st.summary(g) {
 						stopped = true // every path through the helper is stopped (or it never returns)
 						break
